@@ -1,5 +1,6 @@
 import Driver.Util
 import ReplicatModel.ObjCmd
+import ReplicatModel.B2Location
 open Lean Replicat Replicat.Store Replicat.Paging
 namespace Driver.HStore
 def jstr (s : List Char) : Json := Json.str (String.ofList s)
@@ -74,6 +75,17 @@ def optName (j : Json) : Except String (Option Replicat.Name) :=
   | Json.str s => pure (some s.toList)
   | _ => throw "expected string or null"
 
+/-- `loc` of a B2 history: `{"buckets": [[id, name], …], "own": index, "restricted": bool, "ident": string}` -/
+def parseB2Loc (j : Json) : Except String B2Loc := do
+  let bs ← (← getArr j "buckets").toList.mapM (fun e => do
+    let a ← e.getArr?
+    if h : a.size = 2 then pure ({ id := (← a[0].getStr?).toList, name := (← a[1].getStr?).toList } : Bucket)
+    else throw "bucket must be [id, name]")
+  let i ← getNat j "own"
+  match bs[i]? with
+  | none => throw "own: no such bucket"
+  | some own => pure { buckets := bs, own := own, restricted := (← getBool j "restricted"), ident := (← getName j "ident") }
+
 /-- requests `store.*` (see DESIGN.md Appendix A) -/
 def handleStore (op : String) (j : Json) : Except String Json := do
   match op with
@@ -98,7 +110,11 @@ def handleStore (op : String) (j : Json) : Except String Json := do
       pure (Json.mkObj [("rets", Json.arr rs.toArray), ("state", mapJson (s.map (fun (n, d) => (String.ofList n, d))))])
     | "b2" =>
       let ps ← getNat j "ps"
-      let (s, rs) := runWith (B2.step ps) (B2.listRequests ps) ([] : B2) ops
+      -- optional `loc`: the repository location (`B2.stepAt`); without it the location-free model
+      let step ← (match j.getObjVal? "loc" with
+        | .ok lj => do pure (B2.stepAt (← parseB2Loc lj) ps)
+        | .error _ => pure (B2.step ps) : Except String (B2 → Op → B2 × Ret))
+      let (s, rs) := runWith step (B2.listRequests ps) ([] : B2) ops
       let live := s.filterMap (fun (n, _) => (B2.visible s n).map (fun d => (String.ofList n, d)))
       let nver := s.map (fun (n, vs) => Json.arr #[Json.str (String.ofList n), jnat vs.length])
       pure (Json.mkObj [("rets", Json.arr rs.toArray), ("state", mapJson live), ("versions", Json.arr nver.toArray)])
